@@ -17,7 +17,7 @@ ID_MENUS = {
 }
 MD_MENUS = {
     'none': lambda ids: None,
-    'mixed': lambda ids: [{'taxonomy': ['k__A', 'p__"' + i], 'n': k, 'f': 0.5 * k, 'none': None, 'nested': [[1, 2], ['x']]} for k, i in enumerate(ids)],
+    'mixed': lambda ids: [{'taxonomy': ['k__A', 'p__"' + i], 'n': k, 'f': 0.5 * k, 'none': None, 'nested': [[1, 2 ** 53 + 3], ['x']], 'serial': 2 ** 53 + 1 + 2 * k} for k, i in enumerate(ids)],
     'numpy-scalars': 'numpy',
     'strings-with-quotes': lambda ids: [{'note': 'say "hi" \\ ' + i + '\n'} for i in ids],
 }
@@ -178,9 +178,29 @@ def h_json(nr, nc, idk, mdk, header, direct, reader='from_json', value_menu=Fals
         import sx.env as env
         P = env.module('biom.parse')
 
+        def _hooked(doc_, k):
+            """what the decoder's documented hooks (parse_int / parse_float / parse_constant) would have made of the document"""
+            pi, pf = k.get('parse_int'), k.get('parse_float')
+            if not (pi or pf):
+                return doc_
+
+            def walk(x):
+                if isinstance(x, dict):
+                    return {kk: walk(v) for kk, v in x.items()}
+                if isinstance(x, list):
+                    return [walk(v) for v in x]
+                if isinstance(x, bool) or x is None or isinstance(x, (str, T.SText)) or is_sym(x):
+                    return x
+                if isinstance(x, int) and pi:
+                    return pi(str(x))
+                if isinstance(x, float) and pf:
+                    return pf(repr(x))
+                return x
+            return walk(doc_)
+
         class _J:
-            loads = staticmethod(lambda text, **k: parsed)
-            load = staticmethod(lambda fh, **k: parsed)
+            loads = staticmethod(lambda text, **k: _hooked(parsed, k))
+            load = staticmethod(lambda fh, **k: _hooked(parsed, k))
         # symbolic text cannot go through the C decoder (it hands over the document checked above); concrete runs -- replays and
         # the fallback of paths on which the reader pre-processes the text -- use the real one
         P.json = _J if sym else json
